@@ -8,6 +8,7 @@ import (
 	"fmt"
 	"math/big"
 	"strings"
+	"time"
 
 	corestore "cosmossdk.io/core/store"
 	sdkerrors "cosmossdk.io/errors"
@@ -156,6 +157,7 @@ type DepProbe struct {
 
 	// FaultTx: hex tx hash the fault plan applies to ("*" = every tx); Faults: fallible-call index -> kind.
 	FaultTx string
+	Delay   time.Duration
 	Faults  map[int]FaultKind
 
 	curTx string
@@ -190,6 +192,9 @@ func (d *DepProbe) next(ctx context.Context) (tx string, seq int, fk FaultKind) 
 	}
 	seq = d.seq
 	d.seq++
+	if d.Delay > 0 { // a slow dependency (a loaded node): the call takes this long, nothing else changes
+		time.Sleep(d.Delay)
+	}
 	if d.Faults != nil && (d.FaultTx == "*" || d.FaultTx == tx) {
 		fk = d.Faults[seq]
 	}
